@@ -125,11 +125,25 @@ def guesses_by_structure(ruledir):
     return out
 
 
-def guess_level_case(spec, opts, rules_dir):
-    """the length promise on real guesses: generate every guess of the original and of the edited ruleset with the real guesser"""
+TRAINED_LIST = ['alice@gmail.com123', 'bob@yahoo.com7', 'carol@gmail.com', 'www.google.com1', 'password1', 'password1', 'monkey12', 'Summer19',
+                'abcdefghijklmnopqrst1', 'x1', 'dragon!', 'dragon!', 'letmein', '12345', 'qwer1234']
+
+
+def guess_level_case(spec, opts, rules_dir, trained=None):
+    """the length promise on real guesses: generate every guess of the original and of the edited ruleset with the real guesser
+    (`trained`: the ruleset is not written from a spec but trained from this password list by the real trainer)"""
     v = []
     rdir = os.path.join(rules_dir, 'gsrc')
-    common.write_ruleset(rdir, spec)
+    if trained is not None:
+        tf = os.path.join(common.scratch_dir('c20t'), 'list.txt')
+        with open(tf, 'w', encoding='utf-8') as f:
+            f.write(''.join(p_ + '\n' for p_ in trained))
+        ok_, log_ = common.train(tf, rdir, coverage=0.6)
+        spec = {'terminals': {}, 'trained_passwords': trained}
+        if not ok_:
+            return [{'property': 'C20', 'kind': 'training-failed', 'log_tail': log_[-200:], 'witness': {'spec': spec, 'options': opts}}]
+    else:
+        common.write_ruleset(rdir, spec)
     before = guesses_by_structure(rdir)
     err = real_edit(rules_dir, 'gsrc', opts)
     if err:
@@ -298,6 +312,9 @@ def run(ctx):
              'grammar': [['A5D3', '0.5'], ['A5D2', '0.25'], ['A5', '0.25']], 'omen_prob': [], 'prince': [], 'mode': 'dyadic', 'encoding': 'utf-8'}
     viol += guess_level_case(ispec, {'min_length': 8, 'max_length': 8, 'terminal_set': False, 'regex': None}, rules_dir)
     greal += 1
+    # trainer -> edit_rules -> guesser: a ruleset trained from a list with e-mail / web-site passwords followed by further segments
+    viol += guess_level_case(None, {'min_length': 0, 'max_length': 10, 'terminal_set': False, 'regex': None}, rules_dir, trained=TRAINED_LIST)
+    greal += 1
     cases += greal
     # CLI level: the same through edit_rules.py in the snapshot
     cli_runs = 0
@@ -401,7 +418,8 @@ def replay(ctx, payload):
         got = [l for l in open(gpath).read().split('\n') if l] if os.path.exists(gpath) else None
         return [{'kind': 'cli-typed-options', 'kept': got, 'expected': want}] if rc != 0 or got != want else []
     if 'spec' in w:
-        return [{'kind': v['kind'], 'structure': v.get('structure')} for v in guess_level_case(w['spec'], w['options'], rules_dir)]
+        return [{'kind': v['kind'], 'structure': v.get('structure')}
+                for v in guess_level_case(w['spec'], w['options'], rules_dir, trained=w['spec'].get('trained_passwords'))]
     cvals = w.get('context_values') or CONTEXT_VALUES
     spec = {'terminals': {'X1': [[v, '0.2'] for v in cvals], 'D1': [['1', '1.0']]}, 'grammar': [[s, p] for s, p in w['rows']], 'omen_prob': []}
     common.write_ruleset(os.path.join(rules_dir, 'src'), spec)
